@@ -156,6 +156,7 @@ def run(tier="quick", seed=0):
         return out
 
     def body():
+        nonlocal ev
         # ------------------------------------------------------------------ A1 same-chip substitution
         vs = [G.V("v%d" % i, i) for i in range(4)]
         universe = [(s, [a]) for s in range(4) for a in range(4)] + \
@@ -342,6 +343,56 @@ def run(tier="quick", seed=0):
             if ev_local != before:
                 record("argument_modified", "BitField_values@%d" % ev, "assign_fields / get_* changed field values or a tags list",
                        {"before": [json.loads(b) for b in before], "after": [json.loads(b) for b in ev_local]})
+
+        # ------------------------------------------------------------------ A6 machine control objects sharing what they were given
+        # controllers created one after another from ONE parsed struct file (MachineController(host, structs=d)): whatever one of
+        # them does - boot with board options and overrides of its own, change its contexts - the caller's dictionary and the
+        # other controllers keep the layout and defaults they started from
+        import pkg_resources
+        from rig.machine_control import struct_file as SF, boot as B
+
+        def layout(structs):
+            return [[k.decode(), st_.base, st_.size, sorted([fk.decode(), f.offset, f.length, str(f.pack_chars), repr(f.default)]
+                                                             for fk, f in st_.fields.items())] for k, st_ in sorted(structs.items())]
+        raw_sf = pkg_resources.resource_string("rig", "boot/sark.struct")
+        option_sets = [{}, dict(B.spin3_boot_options), dict(B.spin5_boot_options), {"led0": 0x1234, "hw_ver": 2},
+                       {"sv_overrides": {"p2p_root": 0x0101}}]
+        for n, opts in enumerate(option_sets if thorough else option_sets[1:4]):
+            d = SF.read_struct_file(raw_sf)
+            given = {"x": 1}
+            first, _ = P._controllers(mc={"structs": d, "initial_context": given})
+            second, _ = P._controllers(mc={"structs": d, "initial_context": given})
+            before = json.dumps([layout(d), layout(second.structs), given])
+
+            class _Sock(object):
+                def __init__(self, *a):
+                    pass
+                connect = send = lambda self, *a: None
+
+                def close(self):
+                    pass
+            real = B.socket.socket, B.time.sleep
+            B.socket.socket, B.time.sleep = _Sock, (lambda s_: None)
+            try:
+                first.boot(only_if_needed=False, check_booted=False, boot_delay=0, post_boot_delay=0, **dict(opts))
+            finally:
+                B.socket.socket, B.time.sleep = real
+            first.update_current_context(x=5, y=6, app_id=77)
+            with first(p=3):
+                pass
+            ev += 1
+            distinct.add("controllers|%d" % n)
+            after = json.dumps([layout(d), layout(second.structs), given])
+            third, _ = P._controllers(mc={"structs": d, "initial_context": given})
+            if after != before or json.dumps([layout(d), layout(third.structs), given]) != before:
+                record("remembers_earlier_calls", "controllers_sharing_structs@%d" % ev,
+                       "two MachineControllers were created from the same parsed struct file; after the first one booted (options %r) and changed "
+                       "its context, the caller's dictionary / the second controller / a third one created afterwards no longer have the "
+                       "layout and defaults they were given: %s" % (sorted(opts), first_difference(json.loads(before), json.loads(after))),
+                       {"boot_options": sorted(opts)})
+            elif second.get_context_arguments().get("x") != 1 or "y" in second.get_context_arguments() and second.get_context_arguments()["y"] == 6:
+                record("remembers_earlier_calls", "controllers_sharing_context@%d" % ev,
+                       "the second controller's contextual arguments changed when the first one's were updated", {"second": repr(second.get_context_arguments())})
 
     genv = [None]
     global_state = random.getstate()
